@@ -121,7 +121,7 @@ def main():
                      "kind_free_text": "Coq 8.16.1 development (/verif/coq) + Python harness (/verif/harness/pv) doing exact-enumeration correspondence and property search"}],
         "checks": checks,
         "not_applicable": [{"property_id": pid, "reason": NOT_YET} for pid in ids if pid not in CLAIMED],
-        "notes": "DESIGN.md section 10 describes what was built, the theorems, the trusted base, the 15 repaired defects and the 200 seeded changes (seeded/, six rounds; section 10.7 lists which check catches which and the strengthenings they led to: large inputs - clones of hundreds of points, grids above 256, more than ten chains / topologies / children -, object histories with in-place concentration changes, held subtrees, worker reuse, runs killed or out of disk space), and the 29 behaviour-preserving rewrites in benign/ that raise no alarm. Known findings: known_findings.json. tools_seeded.py / tools_seeded_confirm.py run the checks against a patch in a scratch worktree (PV_REPO) without touching /repo.",
+        "notes": "DESIGN.md section 10 describes what was built, the theorems, the trusted base, the 15 repaired defects and the 219 seeded changes (seeded/, seven rounds; 215 caught, four open gaps of the last round listed in DESIGN.md 10.7; section 10.7 lists which check catches which and the strengthenings they led to: large inputs - clones of hundreds of points, grids above 256, more than ten chains / topologies / children -, object histories with in-place concentration changes, held subtrees, worker reuse, runs killed or out of disk space), and the 29 behaviour-preserving rewrites in benign/ that raise no alarm. Known findings: known_findings.json. tools_seeded.py / tools_seeded_confirm.py run the checks against a patch in a scratch worktree (PV_REPO) without touching /repo.",
     }
     json.dump(man, open(os.path.join(HERE, "MANIFEST.json"), "w"), indent=1)
 
